@@ -887,11 +887,28 @@ func (s *Service) ReconfigureProcessor(_ context.Context, pipelineID, processorI
 func (s *Service) buildRunnablePipeline(
 	ctx context.Context,
 	pl *pipeline.Instance,
-) (*runnablePipeline, error) {
+) (_ *runnablePipeline, err error) {
 	pipelineLogger := s.logger
 	pipelineLogger.Logger = pipelineLogger.Logger.With().Str(log.PipelineIDField, pl.ID).Logger()
 
-	srcTaskSets, err := s.buildSourceTasks(ctx, pl, pipelineLogger)
+	// Making a processor runnable reserves its instance (marks it running).
+	// If building the pipeline fails further down, nothing will ever run or
+	// tear down the processors built so far: release them here, otherwise the
+	// instances stay reserved and every later Start of this pipeline fails with
+	// "processor already running".
+	var built []*processor.RunnableProcessor
+	defer func() {
+		if err == nil {
+			return
+		}
+		for _, p := range built {
+			if tdErr := p.Teardown(ctx); tdErr != nil {
+				pipelineLogger.Warn(ctx).Err(tdErr).Str(log.ProcessorIDField, p.ID).Msg("could not tear down processor of a pipeline that failed to build")
+			}
+		}
+	}()
+
+	srcTaskSets, err := s.buildSourceTasks(ctx, pl, pipelineLogger, &built)
 	if err != nil {
 		return nil, cerrors.Errorf("failed to build source tasks: %w", err)
 	}
@@ -899,7 +916,7 @@ func (s *Service) buildRunnablePipeline(
 		return nil, cerrors.New("can't build pipeline without any source connectors")
 	}
 
-	destTasks, err := s.buildDestinationTasks(ctx, pl, pipelineLogger)
+	destTasks, err := s.buildDestinationTasks(ctx, pl, pipelineLogger, &built)
 	if err != nil {
 		return nil, cerrors.Errorf("failed to build destination tasks: %w", err)
 	}
@@ -907,7 +924,7 @@ func (s *Service) buildRunnablePipeline(
 		return nil, cerrors.New("can't build pipeline without any destination connectors")
 	}
 
-	procTasks, err := s.buildProcessorTasks(ctx, pl, pl.ProcessorIDs, pipelineLogger)
+	procTasks, err := s.buildProcessorTasks(ctx, pl, pl.ProcessorIDs, pipelineLogger, &built)
 	if err != nil {
 		return nil, cerrors.Errorf("failed to build pipeline processor tasks: %w", err)
 	}
@@ -1093,6 +1110,7 @@ func (s *Service) buildSourceTasks(
 	ctx context.Context,
 	pl *pipeline.Instance,
 	logger log.CtxLogger,
+	built *[]*processor.RunnableProcessor,
 ) ([]sourceTaskSet, error) {
 	var sets []sourceTaskSet
 
@@ -1119,7 +1137,7 @@ func (s *Service) buildSourceTasks(
 		)
 
 		// Add processor tasks
-		procTasks, err := s.buildProcessorTasks(ctx, pl, instance.ProcessorIDs, logger)
+		procTasks, err := s.buildProcessorTasks(ctx, pl, instance.ProcessorIDs, logger, built)
 		if err != nil {
 			return nil, cerrors.Errorf("failed to build source processor tasks: %w", err)
 		}
@@ -1145,6 +1163,7 @@ func (s *Service) buildDestinationTasks(
 	ctx context.Context,
 	pl *pipeline.Instance,
 	logger log.CtxLogger,
+	built *[]*processor.RunnableProcessor,
 ) ([][]funnel.Task, error) {
 	var tasks [][]funnel.Task
 
@@ -1171,7 +1190,7 @@ func (s *Service) buildDestinationTasks(
 		)
 
 		// Add processor tasks
-		procTasks, err := s.buildProcessorTasks(ctx, pl, instance.ProcessorIDs, logger)
+		procTasks, err := s.buildProcessorTasks(ctx, pl, instance.ProcessorIDs, logger, built)
 		if err != nil {
 			return nil, cerrors.Errorf("failed to build destination processor tasks: %w", err)
 		}
@@ -1202,6 +1221,7 @@ func (s *Service) buildProcessorTasks(
 	pl *pipeline.Instance,
 	processorIDs []string,
 	logger log.CtxLogger,
+	built *[]*processor.RunnableProcessor,
 ) ([]funnel.Task, error) {
 	var tasks []funnel.Task
 
@@ -1215,6 +1235,7 @@ func (s *Service) buildProcessorTasks(
 		if err != nil {
 			return nil, err
 		}
+		*built = append(*built, runnableProc)
 
 		tasks = append(
 			tasks,
